@@ -96,9 +96,14 @@ def task(arg):
                         atoms.calc.results["forces_comm"] = comm
                         vr = np.std(comm, axis=0) / np.mean(np.abs(comm), axis=0)
                         sim.update_delta()
-                        counters["evaluations"] += 1
+                        d_first = np.array(sim.delta, dtype=float, copy=True)
+                        sim.update_delta()  # the same calculator results read a second time
+                        counters["evaluations"] += 2
                         counters["nontrivial"] += 1
                         d = np.asarray(sim.delta, dtype=float)
+                        if d.shape == d_first.shape and not np.array_equal(np.nan_to_num(d), np.nan_to_num(d_first)):
+                            V(f"C18/{func}/{route}/same-inputs-different-delta", f"two consecutive adaptations on the same committee results give {js(d_first)} then {js(d)}; spread factor {kk}; {where0}")
+                            break
                         if np.any(d < lo - ulp4) or np.any(d > hi + ulp4) or not np.all(np.isfinite(d)):
                             V(f"C18/{func}/{route}/out-of-range", f"delta {js(d)}; spread factor {kk}; {where0}")
                             break
